@@ -127,8 +127,8 @@ class C05(props.BaseProp):
 
 P = props.register(C05())
 P.manifest = {
-    "text": "TO BE FILLED",
-    "note": "TO BE FILLED",
+    "text": "Unbounded theorems (any adjacency / any graph state, axiom-free): about the definition bc_def (ordered-pair sum of the fraction of shortest paths through v, brute-force path enumeration): endpoints never count, pairs without a path contribute nothing, every enumerated shortest path is a path, <=2 nodes => all values 0, one value per node; the four get_scale cases are the scaling rules of the property (normalised: /((n-1)(n-2)) for n>2, raw undirected: /2); the accumulation step never adds to the source's own entry nor to nodes off the stack; the model returns exactly one entry per node; rayon path = serial path. 'model = rescale(definition)' (Brandes' theorem) is NOT proved for all graphs: it is validated per generated graph inside Coq in exact rationals (observation 52, n<=8) and the implementation is compared with the model on every case.",
+    "note": 'Trusted: Coq kernel + vm_compute; harness/printers/diff (1e-9 on reals). Modelled not verified: IEEE rounding (model in Q), BinaryHeap pop among equal distances (explicit first/last-minimal oracle; observation 51 checks per case that the result does not depend on it), rayon indexed collect (modelled as index-order map, proved equal to the serial loop). A NaN weight in weighted mode is outside the modelled domain (never generated). Missing for the full statement: the Brandes stage invariants and the dependency recurrence (DESIGN.md F.2). Axioms: none.',
     "technique": "Coq proof + verified per-case validation against the executable definition + differential "
                  "correspondence vs vm_compute model + independent definitional oracle on the implementation",
 }
